@@ -13,7 +13,7 @@ import (
 func init() { register("C17", true, runC17) }
 
 func runC17(c *Check) {
-	c.Explanation = "Decides only the structural clauses of C17: every slice-typed field of the flame-graph data model (StackSet.Stacks/Sources, Stack.Sources, StackSource.Display/Places) is given a non-nil value wherever such a value is built and is only ever re-assigned non-nil values (literal, make, append with elements, or a helper all of whose returns are non-nil), and no such field is tagged omitempty or '-' for JSON, so the client never sees null or a missing array (R1, R2); the page receives exactly json.Marshal of Report.Stacks() (R3); every stack starts with the synthetic root source 0 (R4); fillPlaces records a stack at most once per source, at the first occurrence, using a fresh seen-set per stack (R5); the source memo key is computed from name, file, line, column and inlined flag on every path (R6); each sample adds its value exactly once to the self value of the last source of its stack (R7). Also: inlined flag = index of the line read differs from len-1 (R8); fillPlaces walks every stack (R9); Stacks() always builds (R10). Round-I additions: the Nodes list served with the stack view gets one entry per source on every iteration. Not decided: the index and sum invariants (values, self, places completeness)."
+	c.Explanation = "Decides only the structural clauses of C17: every slice-typed field of the flame-graph data model (StackSet.Stacks/Sources, Stack.Sources, StackSource.Display/Places) is given a non-nil value wherever such a value is built and is only ever re-assigned non-nil values (literal, make, append with elements, or a helper all of whose returns are non-nil), and no such field is tagged omitempty or '-' for JSON, so the client never sees null or a missing array (R1, R2); the page receives exactly json.Marshal of Report.Stacks() (R3); every stack starts with the synthetic root source 0 (R4); fillPlaces records a stack at most once per source, at the first occurrence, using a fresh seen-set per stack (R5); the source memo key is computed from name, file, line, column and inlined flag on every path (R6); each sample adds its value exactly once to the self value of the last source of its stack (R7). Also: inlined flag = index of the line read differs from len-1 (R8); fillPlaces walks every stack (R9); Stacks() always builds (R10). Round-I additions: the Nodes list served with the stack view gets one entry per source on every iteration. Not decided: the index and sum invariants (values, self, places completeness). Round L: nothing outside package report stores into the stack set or hands its slices to a slices/sort function, so the position cross-references built by report stay valid up to the JSON hand-off (R12)."
 	p := c.P
 	sp := p.SSAPkg("internal/report")
 	if sp == nil {
@@ -378,6 +378,7 @@ func runC17(c *Check) {
 		c.selfAccumulation(mis)
 	}
 	c.c17H()
+	c.c17IndexOwnedByReport()
 	c.searchNamesAlignedWithSources()
 }
 
